@@ -266,6 +266,13 @@ def run(m: Model, r: Report, tier: str) -> None:
     if len(env_arg) != 1 or not isinstance(env_arg[0], ast.Name):
         raise AnalysisError(f"{rh.qualname}: run(..., env=<name>) not found")
     EV = env_arg[0].id
+    # the same for the statement that builds the mapping: GALLIA_ARTIFACTS_DIR / GALLIA_HOOK / GALLIA_INVOCATION describe this run and must win over values
+    # inherited from the process environment (gallia started from inside another run's hook)
+    for a_ in walk_no_nested(rh.node):
+        if isinstance(a_, ast.Assign) and ast.unparse(a_.targets[0]) == EV and isinstance(a_.value, ast.BinOp) and isinstance(a_.value.op, ast.BitOr):
+            inh_right = "environ" in ast.unparse(a_.value.right) and "GALLIA_" in ast.unparse(a_.value.left)
+            r.check(not inh_right, "R8", f"{rh.qualname}#merge-order", f"`{ast.unparse(a_.value)[-40:]}`: in `a | b` the right side wins, so GALLIA_ARTIFACTS_DIR / GALLIA_HOOK / "
+                    "GALLIA_INVOCATION inherited from an outer gallia run (this run started from its hook) replace this run's values", loc=rh.loc)
     run_nodes = {n.id for n in gh.nodes.values() if n.kind == "stmt" and n.ast is not None and any(isinstance(x, ast.Call) and ast.unparse(x.func) in ("run", "subprocess.run") for x in ast.walk(n.ast))}
     for key, src in (("GALLIA_EXIT_CODE", "str(exit_code)"), ("GALLIA_META", "self.run_meta.json()")):
         sets = [n for n in gh.nodes.values() if n.kind == "stmt" and isinstance(n.ast, ast.Assign) and isinstance(n.ast.targets[0], ast.Subscript)
